@@ -1,6 +1,7 @@
 package main
 
 import (
+	"strconv"
 	"time"
 
 	"github.com/IBM/fluent-forward-go/fluent/protocol"
@@ -30,8 +31,60 @@ func init() {
 		}
 		return "ok " + itoa(et.Unix()) + " " + itoa(int64(et.Nanosecond()))
 	}
+	// ETC sec nsec zone => f=<hex8> p=<hex8> c=<hex8> src=<same|changed>
+	// the instant expressed in a named (DST-observing) or fixed zone, handed to the constructors: what do the Forward,
+	// PackedForward and CompressedPackedForward messages carry as the entry's EventTime payload?
+	ops["ETC"] = func(a []string) string {
+		var loc *time.Location
+		if z, err := strconv.ParseInt(a[2], 10, 64); err == nil {
+			loc = time.FixedZone("z", int(z))
+		} else if l, err := time.LoadLocation(a[2]); err == nil {
+			loc = l
+		} else {
+			return "nozone"
+		}
+		t := time.Unix(atoi64(a[0]), atoi64(a[1])).In(loc)
+		mk := func() protocol.EntryList {
+			return protocol.EntryList{{Timestamp: protocol.EventTime{Time: t}, Record: map[string]interface{}{}}}
+		}
+		payload := func(b []byte, at int) string {
+			if len(b) < at+10 || b[at] != 0xd7 || b[at+1] != 0x00 {
+				return "shape"
+			}
+			return hx(b[at+2 : at+10])
+		}
+		src := mk()
+		fm := protocol.NewForwardMessage("t", src)
+		fb, err := fm.MarshalMsg(nil)
+		if err != nil {
+			return "err"
+		}
+		f := "shape"
+		// [tag, [[ext, record]], options?]: 9x a1 74 91 92 d7 00 …
+		if len(fb) > 5 {
+			f = payload(fb, 5)
+		}
+		pm, err := protocol.NewPackedForwardMessage("t", mk())
+		if err != nil {
+			return "err"
+		}
+		cm, err := protocol.NewCompressedPackedForwardMessage("t", mk())
+		if err != nil {
+			return "err"
+		}
+		cs, _, _ := gunzipOne(cm.EventStream)
+		same := "same"
+		if !src[0].Timestamp.Time.Equal(t) || src[0].Timestamp.Time.Location() != loc {
+			same = "changed"
+		}
+		return "f=" + f + " p=" + payload(pm.EventStream, 1) + " c=" + payload(cs, 1) + " src=" + same
+	}
 	suites["et"] = genET
 }
+
+// named zones with daylight saving time (one of them by half an hour), and instants at which their clocks are set back or forward
+var etNamedZones = []string{"America/New_York", "Europe/Berlin", "Australia/Lord_Howe", "America/St_Johns", "Asia/Kolkata", "UTC"}
+var etTransitions = []int64{1636264800, 1615705200, 1635642000, 1616893200, 1617463800, 1633188600, 1636263000, 1615699800, 0, 1600000000}
 
 var etSecs = []int64{0, 1, 2, 255, 256, 65535, 65536, 1 << 24, 1<<31 - 1, 1 << 31, 1<<32 - 2, 1<<32 - 1, 1600000000}
 var etNsecs = []int64{0, 1, 255, 256, 999, 1000, 999999, 1000000, 123456789, 999999998, 999999999}
@@ -43,7 +96,24 @@ func genET(o *Out, r *Rng, n int, tier string) {
 			o.emit("C19", "ET", itoa(s), itoa(ns), itoa(etZones[r.Intn(len(etZones))]))
 		}
 	}
+	// through the constructors, in zones that set their clocks back and forward: around each transition
+	for _, z := range etNamedZones {
+		for _, tr := range etTransitions {
+			for _, d := range []int64{-7200, -3601, -3600, -1800, -1, 0, 1, 1799, 1800, 3599, 3600, 5400, 7200} {
+				if tr+d >= 0 {
+					o.emit("C19", "ETC", itoa(tr+d), itoa(etNsecs[r.Intn(len(etNsecs))]), z)
+				}
+			}
+		}
+	}
 	for i := 0; i < n; i++ {
+		if r.Chance(10) {
+			z := etNamedZones[r.Intn(len(etNamedZones))]
+			if r.Bool() {
+				z = itoa(etZones[r.Intn(len(etZones))])
+			}
+			o.emit("C19", "ETC", itoa(int64(r.Next()>>32)), itoa(int64(r.Intn(1000000000))), z)
+		}
 		var s int64
 		switch r.Intn(8) {
 		case 0:
